@@ -220,13 +220,13 @@ func (c *c09Ctx) source(kind string) (io.Reader, error) {
 type c09EP struct {
 	name     string
 	fn       func(c *c09Ctx) error
-	file     bool // needs the input as a file
-	root     bool // root module: util.MaxAllowedSectionSize is the limit for header and sections
-	hdrV1    bool // buffers the header of a CARv1 input
-	okV1     bool // returns nil on a valid CARv1
-	hdrV2    bool // buffers the inner header of a CARv2 input
-	okV2     bool // returns nil on a valid CARv2 (with index)
-	sections bool // goes on to the sections
+	file     bool   // needs the input as a file
+	root     bool   // root module: util.MaxAllowedSectionSize is the limit for header and sections
+	hdrV1    bool   // buffers the header of a CARv1 input
+	okV1     bool   // returns nil on a valid CARv1
+	hdrV2    bool   // buffers the inner header of a CARv2 input
+	okV2     bool   // returns nil on a valid CARv2 (with index)
+	sections bool   // goes on to the sections
 	secBuf   string // "stream": buffers every section in turn; "lookup": buffers the sections it is asked for; "": never buffers one
 }
 
